@@ -31,6 +31,32 @@ type wireRow struct {
 	Nums []string        `json:"nums"`
 	Len  int             `json:"len"`
 	Seq  []string        `json:"seq"`
+	Over bool            `json:"over"`
+}
+
+// overLimitPath builds a path of exactly n bytes (n above the 1024-byte limit): ASCII for odd n,
+// two-byte characters for even n (so that it stays below the limit when counted in characters).
+func overLimitPath(n int) string {
+	var b strings.Builder
+	unit := "é"
+	if n%2 == 1 {
+		unit = "a"
+	}
+	seg := 0
+	for b.Len() < n {
+		if seg >= 100 && b.Len() < n-len(unit)-1 {
+			b.WriteByte('/')
+			seg = 0
+			continue
+		}
+		if b.Len()+len(unit) > n {
+			b.WriteByte('x')
+			continue
+		}
+		b.WriteString(unit)
+		seg++
+	}
+	return b.String()
 }
 
 func numU(class string, bits uint) uint64 {
@@ -101,7 +127,13 @@ func buildRecord(rng *rand.Rand, r wireRow) any {
 	json.Unmarshal(r.VLen, &two)
 	switch r.Type {
 	case "FileBegin":
-		return transfer.FileBegin{RelPath: legalPath(rng, one), FileSize: num(0, 64), ChunkSize: uint32(num(1, 32)), StreamID: num(2, 64), HashAlg: byte(num(3, 8)),
+		path := ""
+		if r.Over {
+			path = overLimitPath(one)
+		} else {
+			path = legalPath(rng, one)
+		}
+		return transfer.FileBegin{RelPath: path, FileSize: num(0, 64), ChunkSize: uint32(num(1, 32)), StreamID: num(2, 64), HashAlg: byte(num(3, 8)),
 			StripeIndex: uint16(num(4, 16)), StripeCount: uint16(num(5, 16)), StripeStart: uint32(num(6, 32)), StripeChunks: uint32(num(7, 32))}
 	case "Credit":
 		return transfer.Credit{StreamID: num(0, 64), Credits: uint32(num(1, 32))}
@@ -222,6 +254,24 @@ func WireValues(args []string) {
 	for i, r := range rows {
 		for f := 0; f < *fill; f++ {
 			rec := buildRecord(rng, r)
+			if r.Over {
+				// over the field's limit: the encoder must refuse and write nothing; whatever it does write must decode
+				var buf bytes.Buffer
+				err := transfer.VerifWriteRecord(&buf, rec)
+				switch {
+				case err != nil && buf.Len() == 0:
+				case err != nil:
+					res.AddViolation(map[string]any{"kind": "encoder_wrote_part_of_a_refused_record", "case": r.Type}, map[string]any{"row": r, "bytes": buf.Len()})
+				default:
+					_, got, derr := transfer.VerifReadControlMessage(&segReader{r: bytes.NewReader(buf.Bytes()), max: 1 << 30})
+					if derr != nil || !equalRecord(rec, got) {
+						res.AddViolation(map[string]any{"kind": "decoder_fails_on_encoded_record", "case": r.Type + " over the path limit"},
+							map[string]any{"row": r, "err": fmt.Sprint(derr), "path_bytes": len(rec.(transfer.FileBegin).RelPath)})
+					}
+				}
+				res.Steps++
+				continue
+			}
 			check(r.Type, []any{rec}, []int{r.Len}, r)
 			res.Steps++
 		}
@@ -240,6 +290,9 @@ func WireValues(args []string) {
 		}
 		byTypeRows := map[string][]wireRow{}
 		for _, r := range rows {
+			if r.Over {
+				continue // over-limit values are refused by the encoder: not part of a sequence
+			}
 			byTypeRows[r.Type] = append(byTypeRows[r.Type], r)
 		}
 		for i, sr := range srows {
@@ -332,6 +385,7 @@ type mutOutcome struct {
 	Ms       int64   `json:"ms"`
 	HeapMB   float64 `json:"heapMB"`
 	Bytes    int     `json:"bytes"`
+	KeepOpen string  `json:"data_stream_ends_inside,omitempty"`
 }
 
 // WireMutations: parent. Cases run in child processes (address-space limit, crash isolation).
@@ -860,6 +914,64 @@ func WireCase(args []string) {
 		o.HeapMB = heapMB() - h0
 		emit(o)
 	}()
+	// 3. the data stream ends inside a chunk frame while the control stream stays open and silent: the receiver
+	// must still report the truncated record promptly (it must not take the end of the stream for a clean finish)
+	if cut := endsInsideFrame(data); cut != "" {
+		o := mutOutcome{Target: "RecvManifestMultiStream (control stream kept open)", Bytes: len(ctrl) + len(data)}
+		p := vnet.NewPair(vnet.Options{})
+		defer p.Shutdown()
+		a := p.End(vnet.A)
+		h0 := heapMB()
+		t0 := time.Now()
+		done := make(chan struct{})
+		go func() {
+			defer close(done)
+			defer func() {
+				if pv := recover(); pv != nil {
+					o.Panic = fmt.Sprint(pv)
+				}
+			}()
+			_, err := transfer.RecvManifestMultiStream(context.Background(), p.End(vnet.B), filepath.Join(dir, "out3"), transfer.Options{ParallelFiles: 1})
+			if err != nil {
+				o.Err = err.Error()
+			}
+		}()
+		cs, _ := a.OpenStream(context.Background())
+		ds, _ := a.OpenStream(context.Background())
+		cs.Write(ctrl)
+		ds.Write(data)
+		ds.Close()
+		select {
+		case <-done:
+			o.Returned = true
+		case <-time.After(4 * time.Second):
+		}
+		cs.Close()
+		o.Ms = time.Since(t0).Milliseconds()
+		o.HeapMB = heapMB() - h0
+		o.KeepOpen = cut
+		emit(o)
+	}
+}
+
+// endsInsideFrame reports whether the data-stream bytes stop strictly inside a chunk frame
+// (20-byte header: key, index, length, crc; then the payload), and where.
+func endsInsideFrame(data []byte) string {
+	off := 0
+	for off < len(data) {
+		if len(data)-off < 20 {
+			return "header"
+		}
+		l := int(uint32(data[off+12])<<24 | uint32(data[off+13])<<16 | uint32(data[off+14])<<8 | uint32(data[off+15]))
+		if l <= 0 || l > 1<<20 {
+			return "" // not a plausible frame: other mutations' subject
+		}
+		if len(data)-off-20 < l {
+			return "payload"
+		}
+		off += 20 + l
+	}
+	return ""
 }
 
 // runSenderCase: real SendManifestMultiStream whose peer answers with mutated acknowledgement records.
